@@ -4,6 +4,8 @@ C03 — A matching round clears every executable pair and never fails.
 import PamsLemmas.MarketLemmas
 import Mathlib.Data.Nat.Basic
 
+set_option linter.unusedSectionVars false
+
 namespace Pams.C03
 open Pams
 variable {P : Type} [LinearOrder P]
